@@ -10,7 +10,7 @@ use std::borrow::Cow;
 
 pub const ALPHA: &[char] = &[
     '\\', '.', '+', '*', '?', '(', ')', '|', '[', ']', '{', '}', '^', '$', '#', '-', '&', '~', ' ', '\n', '\t', ',', ':', '<', '>', '=', '!', '\'', 'd', 'w', 's', 'b', 'B', 'A', 'z', 'Z', 'K', 'G',
-    'k', 'g', 'h', 'x', 'u', 'p', 'n', 't', 'e', '0', '1', '9', 'é', '€', '😀', 'a', 'Q', 'E',
+    'k', 'g', 'h', 'x', 'u', 'p', 'n', 't', 'e', '0', '1', '9', 'é', '€', '😀', 'a', 'Q', 'E', '\u{7ff}', '\u{800}',
 ];
 
 const SPECIAL: &str = "\\.+*?()|[]{}^$#";
@@ -25,7 +25,14 @@ pub const HOSTS: &[(&str, &str, &str)] = &[
     ("E(?<=E)", "", ""),     // filled specially
     ("(?-i:E)", "(?-i:", ")"),
     ("(?:E|(?!))", "(?:", "|(?!))"),
+    // the escaped text in one delegated piece together with easy non-literal neighbours
+    ("(?=)[a-z]{0}E\\d{0}", "(?=)[a-z]{0}", "\\d{0}"),
+    ("(?<![\\s\\S]{99})E[0-9]{0}", "(?<![\\s\\S]{99})", "[0-9]{0}"),
+    // free-spacing mode: only for strings without whitespace (which that mode ignores)
+    ("(?x:E)", "(?x:", ")"),
 ];
+
+const X_HOST: usize = 11;
 
 fn host_pattern(host: usize, e: &str) -> String {
     match HOSTS[host].0 {
@@ -90,6 +97,9 @@ pub fn check_string(s: &str, hosts: &[usize]) -> Result<Info, (usize, String, Fa
     let mut nontrivial = 0;
     let texts = texts_for(s);
     for &h in hosts {
+        if h == X_HOST && s.chars().any(|c| c.is_whitespace()) {
+            continue;
+        }
         let pat = host_pattern(h, &e);
         let re = match engine::build(&pat) {
             Built::Ok(r) => r,
@@ -153,7 +163,7 @@ fn violation(s: &str, hosts: &[usize], f: Fail) -> Violation {
 
 pub fn run(ctx: &RunCtx) -> Outcome {
     let mut o = Outcome::default();
-    o.rule = format!("strings: every string of length <= L over {} characters (all regex meta-characters, - & ~ # space newline tab , : < > = ! ', the letters that form escapes after a backslash, digits, é € 😀) exhaustively, plus proptest strings of length 4..12; each escaped and embedded in {} host patterns (bare, (?=)E, (?:E), (?>E), (E), (?=E)E, E(?<=E), (?-i:E), (?:E|(?!))) that cannot change what E matches. Oracle: the host compiles; on texts built from the string (itself, embedded after a multi-byte prefix, doubled, near misses with one character changed or dropped) find == str::find; escape borrows iff nothing needed escaping and only inserts backslashes before special characters. Non-trivial = the string has a meta-character and occurs at an offset > 0. Distinct = distinct (string, host, text).", ALPHA.len(), HOSTS.len());
+    o.rule = format!("strings: every string of length <= L over {} characters (all regex meta-characters, - & ~ # space newline tab , : < > = ! ', the letters that form escapes after a backslash, digits, é € 😀) exhaustively, plus proptest strings of length 4..12; each escaped and embedded in {} host patterns (bare, (?=)E, (?:E), (?>E), (E), (?=E)E, E(?<=E), (?-i:E), (?:E|(?!)), two hosts that put E into one delegated piece together with empty-matching class repeats, and (?x:E) for whitespace-free strings) that cannot change what E matches. Oracle: the host compiles; on texts built from the string (itself, embedded after a multi-byte prefix, doubled, near misses with one character changed or dropped) find == str::find; escape borrows iff nothing needed escaping and only inserts backslashes before special characters. Non-trivial = the string has a meta-character and occurs at an offset > 0. Distinct = distinct (string, host, text).", ALPHA.len(), HOSTS.len());
     o.assumptions = vec!["oracle: str::find".into()];
     o.required_classes = vec!["string:has-meta-character".into(), "string:plain".into()];
     let all_hosts: Vec<usize> = (0..HOSTS.len()).collect();
@@ -167,7 +177,7 @@ pub fn run(ctx: &RunCtx) -> Outcome {
                 return st;
             }
             // the longest strings go through three hosts only (bare, VM-forcing, look-behind)
-            let hosts: &[usize] = if s.chars().count() >= 3 && ctx.quick() || s.chars().count() >= 4 { &[0, 1, 6] } else { &all_hosts };
+            let hosts: &[usize] = if s.chars().count() >= 3 && ctx.quick() || s.chars().count() >= 4 { &[0, 1, 6, 9, 11] } else { &all_hosts };
             st.evaluations += (hosts.len() * (3 + 3 * s.chars().count() + 2)) as u64;
             st.patterns += 1;
             match check_string(s, hosts) {
